@@ -382,6 +382,7 @@ func (ex *Exec) evalInstr(fr *Frame, st *State, ins ssa.Instruction, v ssa.Value
 		for _, b := range x.Bindings {
 			c.Bindings = append(c.Bindings, ex.val(fr, st, b))
 		}
+		ex.checkClosurePre(fr, st, x, fn, c)
 		id := ex.newObj(st)
 		st.Closures[id.String()] = c
 		st.assume(Eq(UF("closure.fn", SInt, id), ex.funcID(fn)))
@@ -921,5 +922,44 @@ func (ex *Exec) applyEach(st *State, loc *Loc, v Value) {
 		if p != nil {
 			st.assume(Implies(And(f.Guard, in), p))
 		}
+	}
+}
+
+// checkClosurePre: preconditions of a closure's contract that speak only about captured
+// variables are established where the closure is created.
+func (ex *Exec) checkClosurePre(fr *Frame, st *State, site *ssa.MakeClosure, fn *ssa.Function, c *Closure) {
+	con := ex.specs.Contracts[fnKeyOf(fn)]
+	if con == nil || ex.recording != nil {
+		return
+	}
+	env := &Env{ex: ex, cur: st, old: st, live: st, vars: map[string]Value{}, pkg: pkgOf(fn)}
+	for i, fv := range fn.FreeVars {
+		b := c.Bindings[i]
+		if b.Loc != nil && b.Loc.Kind == "cell" {
+			if cv, ok := st.Cells[b.Loc.Cell]; ok {
+				env.vars[fv.Name()] = cv
+				continue
+			}
+		}
+		env.vars[fv.Name()] = b
+	}
+	for _, r := range con.Requires {
+		var g *Term
+		func() {
+			defer func() {
+				if rec := recover(); rec != nil {
+					if _, ok := rec.(specErr); ok {
+						g = nil
+						return
+					}
+					panic(rec)
+				}
+			}()
+			g = env.boolTerm(r.Expr)
+		}()
+		if g == nil {
+			continue // mentions parameters: checked by the callback specification instead
+		}
+		ex.oblige(st, "closure-pre@"+fnKeyOf(fn), r.Label, mergeProps(r.Props, ex.safetyProps(fr)[1:]), g, site.Pos(), fnKeyOf(fr.fn))
 	}
 }
